@@ -2,9 +2,9 @@ use rusty_common::{AtPos, CaseInsensitiveString, Position, Positioned};
 use rusty_linter::core::{LinterContext, ScopeName};
 use rusty_linter::names::Names;
 use rusty_parser::{
-    Assignment, BareName, BuiltInFunction, BuiltInSub, DimVar, Expression, ExpressionType,
-    FileHandle, FunctionImplementation, GlobalStatement, HasExpressionType, Name, Parameter,
-    Program, Statement, Statements, SubImplementation, TypeQualifier, UserDefinedTypes,
+    AsBareName, Assignment, BareName, BuiltInFunction, BuiltInSub, DimVar, Expression,
+    ExpressionType, FileHandle, FunctionImplementation, GlobalStatement, HasExpressionType, Name,
+    Parameter, Program, Statement, Statements, SubImplementation, TypeQualifier, UserDefinedTypes,
 };
 use rusty_variant::Variant;
 
@@ -457,9 +457,30 @@ impl InstructionGenerator {
         let qualifier = function_name
             .qualifier()
             .expect("Expected qualified function name");
-        self.mark_current_subprogram(ScopeName::Function(function_name), pos);
+        let scope_name = ScopeName::Function(function_name.clone());
+        let subprogram_info = self
+            .subprogram_info_repository
+            .get_subprogram_info(&scope_name);
+        // a STATIC function keeps its variables between calls, but not its previous result
+        // (unless a parameter has the name of the function, in which case the result is the parameter)
+        let reset_result = subprogram_info.is_static
+            && !subprogram_info
+                .params
+                .iter()
+                .any(|p| p.as_bare_name() == function_name.as_bare_name());
+        self.mark_current_subprogram(scope_name, pos);
         // set default value
         self.push(Instruction::AllocateBuiltIn(qualifier), pos);
+        if reset_result {
+            self.push(
+                Instruction::VarPathName(RootPath {
+                    name: function_name,
+                    shared: false,
+                }),
+                pos,
+            );
+            self.push(Instruction::CopyAToVarPath, pos);
+        }
         self.subprogram_body(body, pos);
     }
 
